@@ -737,6 +737,21 @@ Definition mk_binary_from_tree (s : ustring) : result aconst :=
   | None => Raise ValueError
   end.
 
+(* ---- plain Python values handed to the model classes: make_constant ---- *)
+
+Inductive pyval := PyInt (z : Z) | PyFloat (f : fval) | PyBool (b : bool) | PyStr (s : ustring) | PyList (l : list pyval).
+
+(* make_constant(value): TimestampConstant(value) if that works (a str in timestamp form), else by type:
+   str, bool (before int), int, float, list *)
+Fixpoint make_constant (v : pyval) : aconst :=
+  match v with
+  | PyStr s => match py_strptime s with Some t => CTimestamp t | None => CString s true end
+  | PyBool b => CBool b
+  | PyInt z => CInt z
+  | PyFloat f => CFloat f
+  | PyList l => CList (map make_constant l)
+  end.
+
 Inductive vres :=
 | VNone
 | VTok (t : token)
